@@ -660,6 +660,7 @@ def F2iRange (ext : Ext F) : Prop :=
 def wfAction : Action → Bool
   | .parseIntKeep t => t == .i32 || t == .i64
   | .parseFloatKeep t => t == .f32 || t == .f64
+  | .parseFloatFinite t => t == .f32 || t == .f64
   | _ => true
 
 theorem bmod32_range (n : Int) : -2147483648 ≤ Int.bmod n 4294967296 ∧ Int.bmod n 4294967296 < 2147483648 := by
@@ -741,12 +742,17 @@ theorem applyAction_wf (ext : Ext F) (hf : F2iRange ext) (a : Action) (v : GoVal
         rcases ha with rfl | rfl <;> simp [NumT.kind, GoVal.wf, Kind.isFloat]
       · simp [GoVal.wf]
     | _ => simpa [applyAction] using hv
-  | parseFloatFinite =>
+  | parseFloatFinite t =>
     cases v with
     | str s =>
+      simp only [wfAction, Bool.or_eq_true, beq_iff_eq] at ha
       simp only [applyAction]
       split
-      · split <;> simp [GoVal.wf, Kind.isFloat]
+      · rcases ha with rfl | rfl
+        · simp only [beq_self_eq_true, if_true, NumT.kind]
+          split <;> simp [GoVal.wf, Kind.isFloat]
+        · simp only [NumT.kind]
+          split <;> (try split) <;> simp [GoVal.wf, Kind.isFloat]
       · simp [GoVal.wf]
     | _ => simpa [applyAction] using hv
   | parseBoolKeep =>
